@@ -66,7 +66,7 @@ func c20(args []string) int {
 		qn[q.Pkg+"."+q.Fn] = q
 	}
 	var mu sync.Mutex
-	controls := map[string]bool{}   // subject -> some checker reported on the real API
+	controls := map[string]bool{}  // subject -> some checker reported on the real API
 	namesakes := map[string]bool{} // subject|checker flagged on namesake
 
 	handle := func(r *caseResult) {
